@@ -1,1 +1,247 @@
-//! Reference codec (IEEE 1588-2019 Clause 13), filled in with the C04 harnesses.
+//! Reference codec: IEEE 1588-2019 Clause 13 as a plain offset/width/byte-order table.
+//! Shares no code with statime's `datastructures`; works on raw bytes and plain integers only.
+
+pub(crate) const T_SYNC: u8 = 0x0;
+pub(crate) const T_DELAY_REQ: u8 = 0x1;
+pub(crate) const T_PDELAY_REQ: u8 = 0x2;
+pub(crate) const T_PDELAY_RESP: u8 = 0x3;
+pub(crate) const T_FOLLOW_UP: u8 = 0x8;
+pub(crate) const T_DELAY_RESP: u8 = 0x9;
+pub(crate) const T_PDELAY_RESP_FOLLOW_UP: u8 = 0xa;
+pub(crate) const T_ANNOUNCE: u8 = 0xb;
+pub(crate) const T_SIGNALING: u8 = 0xc;
+pub(crate) const T_MANAGEMENT: u8 = 0xd;
+
+pub(crate) const HEADER_LEN: usize = 34;
+
+/// 13.3.1 Table 35 (common header)
+#[derive(Clone, Copy, PartialEq, Eq)]
+pub(crate) struct RefHeader {
+    pub major_sdo_id: u8,   // octet 0 bits 7..4
+    pub message_type: u8,   // octet 0 bits 3..0
+    pub minor_version: u8,  // octet 1 bits 7..4
+    pub version: u8,        // octet 1 bits 3..0
+    pub message_length: u16, // octets 2..3
+    pub domain: u8,         // octet 4
+    pub minor_sdo_id: u8,   // octet 5
+    pub flags0: u8,         // octet 6
+    pub flags1: u8,         // octet 7
+    pub correction: i64,    // octets 8..15
+    pub source_clock: [u8; 8], // octets 20..27
+    pub source_port: u16,   // octets 28..29
+    pub sequence_id: u16,   // octets 30..31
+    pub control: u8,        // octet 32
+    pub log_interval: i8,   // octet 33
+}
+
+pub(crate) fn be16(b: &[u8], o: usize) -> u16 {
+    ((b[o] as u16) << 8) | (b[o + 1] as u16)
+}
+
+pub(crate) fn be32(b: &[u8], o: usize) -> u32 {
+    ((b[o] as u32) << 24) | ((b[o + 1] as u32) << 16) | ((b[o + 2] as u32) << 8) | (b[o + 3] as u32)
+}
+
+pub(crate) fn be48(b: &[u8], o: usize) -> u64 {
+    ((b[o] as u64) << 40) | ((b[o + 1] as u64) << 32) | ((b[o + 2] as u64) << 24) | ((b[o + 3] as u64) << 16)
+        | ((b[o + 4] as u64) << 8) | (b[o + 5] as u64)
+}
+
+pub(crate) fn be64(b: &[u8], o: usize) -> u64 {
+    ((be32(b, o) as u64) << 32) | (be32(b, o + 4) as u64)
+}
+
+pub(crate) fn id8(b: &[u8], o: usize) -> [u8; 8] {
+    [b[o], b[o + 1], b[o + 2], b[o + 3], b[o + 4], b[o + 5], b[o + 6], b[o + 7]]
+}
+
+/// requires b.len() >= 34
+pub(crate) fn ref_header(b: &[u8]) -> RefHeader {
+    RefHeader {
+        major_sdo_id: b[0] >> 4,
+        message_type: b[0] & 0x0f,
+        minor_version: b[1] >> 4,
+        version: b[1] & 0x0f,
+        message_length: be16(b, 2),
+        domain: b[4],
+        minor_sdo_id: b[5],
+        flags0: b[6],
+        flags1: b[7],
+        correction: be64(b, 8) as i64,
+        source_clock: id8(b, 20),
+        source_port: be16(b, 28),
+        sequence_id: be16(b, 30),
+        control: b[32],
+        log_interval: b[33] as i8,
+    }
+}
+
+// flag bit positions, 13.3.2.8 Table 37
+pub(crate) const F0_ALTERNATE_MASTER: u8 = 0x01;
+pub(crate) const F0_TWO_STEP: u8 = 0x02;
+pub(crate) const F0_UNICAST: u8 = 0x04;
+pub(crate) const F0_PROFILE_1: u8 = 0x20;
+pub(crate) const F0_PROFILE_2: u8 = 0x40;
+pub(crate) const F0_DEFINED: u8 = 0x67;
+pub(crate) const F1_LEAP61: u8 = 0x01;
+pub(crate) const F1_LEAP59: u8 = 0x02;
+pub(crate) const F1_UTC_VALID: u8 = 0x04;
+pub(crate) const F1_PTP_TIMESCALE: u8 = 0x08;
+pub(crate) const F1_TIME_TRACEABLE: u8 = 0x10;
+pub(crate) const F1_FREQ_TRACEABLE: u8 = 0x20;
+pub(crate) const F1_SYNC_UNCERTAIN: u8 = 0x40;
+pub(crate) const F1_DEFINED: u8 = 0x7f;
+
+/// body length (octets after the common header, before any TLV) per 13.5 - 13.13
+pub(crate) fn ref_body_len(t: u8) -> Option<usize> {
+    match t {
+        T_SYNC | T_DELAY_REQ | T_FOLLOW_UP => Some(10),
+        T_PDELAY_REQ | T_PDELAY_RESP | T_DELAY_RESP | T_PDELAY_RESP_FOLLOW_UP => Some(20),
+        T_ANNOUNCE => Some(30),
+        T_SIGNALING => Some(10),
+        T_MANAGEMENT => Some(14),
+        _ => None,
+    }
+}
+
+/// 13.3.2.13 Table 42: controlField by message type
+pub(crate) fn ref_control(t: u8) -> u8 {
+    match t {
+        T_SYNC => 0,
+        T_DELAY_REQ => 1,
+        T_FOLLOW_UP => 2,
+        T_DELAY_RESP => 3,
+        T_MANAGEMENT => 4,
+        _ => 5,
+    }
+}
+
+// field offsets from the start of the message
+pub(crate) const O_TS: usize = 34;          // first Timestamp of every body that has one (seconds 6, nanoseconds 4)
+pub(crate) const O_PORT_ID: usize = 44;     // requestingPortIdentity of Delay_Resp / Pdelay_Resp / Pdelay_Resp_Follow_Up
+pub(crate) const O_ANN_UTC: usize = 44;     // currentUtcOffset (Integer16)
+pub(crate) const O_ANN_P1: usize = 47;      // grandmasterPriority1 (octet 46 is reserved)
+pub(crate) const O_ANN_CLASS: usize = 48;
+pub(crate) const O_ANN_ACC: usize = 49;
+pub(crate) const O_ANN_VAR: usize = 50;     // offsetScaledLogVariance (UInteger16)
+pub(crate) const O_ANN_P2: usize = 52;
+pub(crate) const O_ANN_GM: usize = 53;      // grandmasterIdentity (8)
+pub(crate) const O_ANN_STEPS: usize = 61;   // stepsRemoved (UInteger16)
+pub(crate) const O_ANN_SOURCE: usize = 63;  // timeSource
+pub(crate) const O_TARGET: usize = 34;      // targetPortIdentity of Signaling / Management
+pub(crate) const O_MGMT_START_HOPS: usize = 44;
+pub(crate) const O_MGMT_HOPS: usize = 45;
+pub(crate) const O_MGMT_ACTION: usize = 46; // low nibble; high nibble reserved; octet 47 reserved
+
+/// Is the suffix (bytes after the body, up to messageLength) a concatenation of TLVs, each with a
+/// 4-octet header and an even lengthField, that exactly fills it? (14.1)
+/// Returns (well_formed, number_of_tlvs, last_tlv_has_zero_length).
+pub(crate) fn ref_tlv_walk(s: &[u8], max_tlvs: usize) -> (bool, usize, bool) {
+    let mut off = 0usize;
+    let mut n = 0usize;
+    let mut last_zero = false;
+    let mut k = 0;
+    while k < max_tlvs + 1 {
+        if off == s.len() {
+            return (true, n, last_zero);
+        }
+        if s.len() - off < 4 {
+            return (false, n, false);
+        }
+        let len = be16(s, off + 2) as usize;
+        if len % 2 != 0 {
+            return (false, n, false);
+        }
+        if s.len() - off - 4 < len {
+            return (false, n, false);
+        }
+        last_zero = len == 0;
+        off += 4 + len;
+        n += 1;
+        k += 1;
+    }
+    // more TLVs than the bound of the caller
+    (off == s.len(), n, last_zero)
+}
+
+/// (type, value offset, value length) of the k-th TLV of a well-formed suffix
+pub(crate) fn ref_tlv_at(s: &[u8], k: usize) -> Option<(u16, usize, usize)> {
+    let mut off = 0usize;
+    let mut i = 0usize;
+    while i <= k {
+        if s.len() - off < 4 {
+            return None;
+        }
+        let len = be16(s, off + 2) as usize;
+        if i == k {
+            return Some((be16(s, off), off + 4, len));
+        }
+        off += 4 + len;
+        i += 1;
+    }
+    None
+}
+
+/// 14.1.1 / Table 52 + 14.2: does a boundary clock propagate a TLV of this type attached to an Announce?
+/// (PATH_TRACE 0x0008, ALTERNATE_TIME_OFFSET_INDICATOR 0x0009, and the forward range 0x4000..0x7FFF)
+pub(crate) fn ref_tlv_propagates(t: u16) -> bool {
+    t == 0x0008 || t == 0x0009 || (t >= 0x4000 && t <= 0x7fff)
+}
+
+pub(crate) struct RefFrame {
+    pub ok: bool,
+    pub m: usize,             // messageLength
+    pub body: usize,          // body length
+    pub tlvs: usize,
+    pub last_tlv_zero: bool,
+}
+
+/// Frame acceptance per Clause 13: at least a header, known type, 34 + body <= messageLength <= buffer,
+/// suffix well formed. (versionPTP and domain screening are the port's job, not the codec's.)
+pub(crate) fn ref_frame(b: &[u8], max_tlvs: usize) -> RefFrame {
+    let bad = RefFrame { ok: false, m: 0, body: 0, tlvs: 0, last_tlv_zero: false };
+    if b.len() < HEADER_LEN {
+        return bad;
+    }
+    let body = match ref_body_len(b[0] & 0x0f) {
+        Some(x) => x,
+        None => return bad,
+    };
+    let m = be16(b, 2) as usize;
+    if m < HEADER_LEN + body || m > b.len() {
+        return bad;
+    }
+    let (wf, n, lz) = ref_tlv_walk(&b[HEADER_LEN + body..m], max_tlvs);
+    RefFrame { ok: wf, m, body, tlvs: n, last_tlv_zero: lz }
+}
+
+/// clockAccuracy octets that Table 5 leaves reserved
+pub(crate) fn acc_reserved(v: u8) -> bool {
+    v <= 0x16 || (v >= 0x32 && v <= 0x7f) || v == 0xff
+}
+
+/// Per-octet mask of the bits Clause 13 defines for a frame of type `t` (index < 34 + body).
+/// Excluded: reserved bits/octets, messageTypeSpecific (16..19), controlField (32: transmitted value is
+/// fixed by Table 42 and ignored on receipt) and enumeration octets whose *value* is reserved
+/// (handled separately by the caller).
+pub(crate) fn defined_mask(t: u8, i: usize) -> u8 {
+    if i < HEADER_LEN {
+        return match i {
+            6 => F0_DEFINED,
+            7 => F1_DEFINED,
+            16..=19 => 0,
+            32 => 0,
+            _ => 0xff,
+        };
+    }
+    match t {
+        T_PDELAY_REQ => if i < 44 { 0xff } else { 0 },
+        T_ANNOUNCE => if i == 46 { 0 } else { 0xff },
+        T_MANAGEMENT => match i {
+            46 => 0x0f,
+            47 => 0,
+            _ => 0xff,
+        },
+        _ => 0xff,
+    }
+}
